@@ -37,6 +37,7 @@ MAKE_MUT_ALLOWED = {
 def run(ctx, fb, cfg):
     lib = fb.lib
     R = "C10."
+    check_union(ctx, lib)
     extra = []
     if cfg == "all-targets":
         for k in fb.files:
@@ -86,6 +87,23 @@ def run(ctx, fb, cfg):
     for p, ns in sorted(callers.items()):
         ctx.expect(p in MAKE_MUT_ALLOWED, rule, "%s|make_mut" % p, site_of(ns[0]), "new clone-on-write site: Rc::make_mut is sound for isolation, but the written object must be classified")
     ctx.floor(rule, len(callers), 5, "Rc::make_mut call sites")
+
+
+def check_union(ctx, lib):
+    """A disjunction yields exactly the union of its branches: the merge keeps every answer of both
+    streams and the bind applies the remaining goals to every answer of the first stream, in both
+    search modes (stream equations shared with C05/C06)."""
+    import streams
+
+    R = "C10."
+    for mode, tag in ((streams.BFS, ""), (streams.DFS, "-dfs")):
+        streams.check_mplus(ctx, lib, mode, R + "K3.merge" + tag)
+        streams.check_bind(ctx, lib, mode, R + "K3.bind" + tag)
+        streams.check_conde_fold(ctx, lib, R + "K6.conde-fold" + tag, mode)
+    streams.check_disj_solve(ctx, lib, streams.BFS, R + "K3.disj", "<crate::operator::disj::Disj as crate::solver::Solve>::solve")
+    streams.check_disj_solve(ctx, lib, streams.DFS, R + "K3.disj-dfs", "<crate::operator::disj::DFSDisj as crate::solver::Solve>::solve")
+    streams.check_disj_new(ctx, lib, R + "K6.disj-new", "crate::operator::disj::Disj::new", "disj::Disj")
+    streams.check_disj_new(ctx, lib, R + "K6.disj-new", "crate::operator::disj::DFSDisj::new", "DFSDisj")
 
 
 def run_once(ctx, tier):
